@@ -2,8 +2,8 @@
 Require Import FastZ.
 From Dashu Require Import Base.Prelude Base.Words Int.RingSpec Int.RingAdd Int.RingMul Int.RingOps
   Int.RingToomW Int.DivWordModel Int.DivWordInst Int.RingMulW Int.RingOpsW Int.RingScratch Int.RingPowW Int.RingPrim
-  Int.WordPrims Int.WordKernelSpec Int.WordKernelRun Int.RingOpsW4 Int.RingPowShift Int.RingPrimW4.
-From DashuGen Require Import SignTables Params MulMemory WordKernelsGen.
+  Int.WordPrims Int.WordKernelSpec Int.WordKernelRun Int.RingOpsW4 Int.RingPowShift Int.RingPrimW4 Int.MulBodiesRun.
+From DashuGen Require Import SignTables Params MulMemory WordKernelsGen MulBodiesGen.
 Extraction "model.ml"
   signed sign_of value to_words
   ubig_add_spec ubig_sub_spec ubig_mul_spec ibig_add_spec ibig_sub_spec ibig_mul_spec
@@ -22,4 +22,5 @@ Extraction "model.ml"
   kernel_need kernel_alloc mul_need sqr_need mul_memory_words_exact sqr_memory_words
   repr_pow_w ubig_pow_w ibig_pow_w
   ubig_prim ibig_prim ibig_from_unsigned ibig_from_signed
-  word_kernel_spec word_kernel_gen word_kernel_hand signed_mul_chunk_gen repr_mul_w4 shl_in_place_gen pow_shift repr_from_unsigned_w.
+  word_kernel_spec word_kernel_gen word_kernel_hand signed_mul_chunk_gen repr_mul_w4 shl_in_place_gen pow_shift repr_from_unsigned_w
+  kmul_bodies_gen ksqr_bodies_gen.
